@@ -157,7 +157,7 @@ def build_driver(name, mode, sources=None, extra_cflags=(), extra_ld=(), interna
     inc = ["-I", b["inc"], "-I", HARNESS]
     if internal:
         inc += ["-I", os.path.join(REPO, "src/h3lib/include")]
-    cmd = ([b["cc"], "-std=gnu11", "-D" + GUARD, "-DH3_PREFIX="] + b["cflags"] + list(extra_cflags) + inc + srcs + common +
+    cmd = ([b["cc"], "-std=gnu11", "-D" + GUARD, "-DH3_PREFIX=", "-rdynamic"] + b["cflags"] + list(extra_cflags) + inc + srcs + common +
            [b["lib"], "-lm", "-lpthread", "-o", out] + b["ld"] + list(extra_ld))
     rc, o = sh(cmd, timeout=600)
     if rc != 0:
@@ -165,7 +165,53 @@ def build_driver(name, mode, sources=None, extra_cflags=(), extra_ld=(), interna
     return out
 
 
+_libsyms = {}
+
+
+def lib_symbols(exe):
+    """names of the functions defined by the library the driver was linked with (nm on libh3.a next to the executable)"""
+    lib = os.path.join(os.path.dirname(exe), "libh3.a")
+    if lib not in _libsyms:
+        rc, out = sh(["nm", "--defined-only", lib])
+        _libsyms[lib] = set(ln.split()[-1] for ln in out.splitlines() if len(ln.split()) == 3 and ln.split()[1] in "Tt")
+    return _libsyms[lib]
+
+
+def classify_crash(exe, err):
+    """None if the driver did not report a fatal signal; else (signal, function, is_library): the innermost frame with a known name"""
+    m = re.search(r"VERIF-CRASH sig=(\d+)\n(.*?)VERIF-CRASH-END", err, re.S)
+    if not m:
+        return None
+    syms = lib_symbols(exe)
+    for ln in m.group(2).splitlines():
+        f = re.search(r"\(([A-Za-z_][A-Za-z0-9_]*)\+0x", ln)
+        if not f or f.group(1) in ("vt_on_fatal",):
+            continue
+        name = f.group(1)
+        return int(m.group(1)), name, name in syms
+    return int(m.group(1)), "?", False
+
+
 def run_driver(exe, args, outfile=None, timeout=1800, env=None):
+    d = _run_driver(exe, args, outfile, timeout, env)
+    if d["rc"] != 0 and not d["timeout"]:
+        c = classify_crash(exe, d["err"])
+        tr = [a for a in args if isinstance(a, str) and a.endswith(".ndjson")]
+        if c and c[2] and tr:
+            # the library under test crashed inside one of its own functions: that is an observation, not an infrastructure
+            # failure.  The recorded trace is kept (a torn last line is dropped) and a Crash event is appended.
+            path = tr[-1]
+            data = open(path, "rb").read() if os.path.exists(path) else b""
+            if data and not data.endswith(b"\n"):
+                data = data[:data.rfind(b"\n") + 1]
+            data += (json.dumps({"e": "Crash", "sig": c[0], "f": c[1], "how": "fatal signal inside library function"}) + "\n").encode()
+            open(path, "wb").write(data)
+            log("  [driver] %s: fatal signal %d inside library function %s -> Crash event" % (os.path.basename(exe), c[0], c[1]))
+            d = dict(d); d["libcrash"] = c[1]; d["rc"] = 0
+    return d
+
+
+def _run_driver(exe, args, outfile=None, timeout=1800, env=None):
     t0 = time.time()
     e = dict(os.environ)
     e.setdefault("ASAN_OPTIONS", "detect_leaks=0:abort_on_error=1:handle_abort=0")
